@@ -84,6 +84,7 @@ func c04Op(op string, cp [4]CParam) []Req {
 
 func genC04(out, tier string, rng *rand.Rand) {
 	sink := NewSink(out, gcsPrelude, "(list req * list resp)", "check_all", 400)
+	sink.oracle = "oracle_all_c04"
 	probes := c04Probes()
 	var tasks []Task
 	for _, mk := range stores() {
